@@ -21,7 +21,7 @@
 //
 // output:  <result> | <tx>@<height>,...|-  b=<TxsBytes()> n=<Size()>
 //
-//	result: ok | added | rejected | err:full | err:toolarge | err:incache |
+//	result: ok | added | present | rejected | err:full | err:toolarge | err:incache |
 //	        reap=<tx,...|-> | panic:maxbytes0 | panic:maxtxbytes | err:badop | stress
 //
 // The pool content is read by walking TxsFront()/Next() and reading the
@@ -427,7 +427,14 @@ func exec(t []string) (string, string) {
 				return "panic:nocallback", "-"
 			}
 			if resp.(abci.ResponseCheckTx).Error == nil {
-				res = "added"
+				// accepted by the app: either a new element was appended, or the tx
+				// was already pooled and only its sender was recorded
+				res = "present"
+				if hs := walk(w.mem); len(hs) > 0 {
+					if _, seen := w.idx[hs[len(hs)-1].e]; !seen {
+						res = "added"
+					}
+				}
 			} else {
 				res = "rejected"
 			}
